@@ -45,3 +45,17 @@ package registry
 //@   requires app != nil && ctx != nil && state != nil && unfreeze != nil
 //@   precall state\.MutableState\)\.SetNodeStatus$ :: api.Signer(ctx) == node.EntityID && argIs(1, node.ID) && argIs(2, status)
 //@   note a node's frozen status is reset only by a transaction signed by the entity that owns the node, and the status written back is the one loaded for that node
+
+// ---- epoch transition (C17): claims of removed nodes are released ----
+
+//@ ghost var GRemClaim int
+//@ ghost var GAccCommit int
+
+//@ func Application.onRegistryEpochChanged
+//@   props C17
+//@   requires app != nil && ctx != nil
+//@   assume-pre common/node\.Node\.IsExpired$
+//@   loop 1 invariant GAccCommit == old(GAccCommit) && defined(params) && params != nil && (params.DebugBypassStake ==> GRemClaim == old(GRemClaim))
+//@   loop 2 invariant GRemClaim > old(GRemClaim) ==> GAccCommit > old(GAccCommit)
+//@   ensures err == nil && GRemClaim > old(GRemClaim) ==> GAccCommit > old(GAccCommit)
+//@   note whenever the epoch transition removed the stake claim of at least one node (a node whose debonding period ended is deleted together with its claim), the stake accumulator is committed before success is reported - in every epoch, also one in which no node newly expired (seed C17_g committed only then): otherwise the node record is gone while the entity's account keeps the claim, and the recorded claims are no longer those implied by the registered nodes
